@@ -7,21 +7,24 @@
 
    text   src/text/de.rs:231-246   Open in key position => reader.skip_container()?   (propagates)
    binary src/binary/de.rs:95-114  Open in key position => let _ = reader.read();     (DISCARDS) *)
-From JV Require Import Bytes.
+From JV Require Import Bytes Tables.
 
 Inductive tok := TOpen | TClose | TEqual | TScalar (n : N).
 Inductive rres := RTok (t : tok) | REof | RIo.
 Inductive kres := KKey (t : tok) | KEnd | KErrIo | KErrEof.
 
-Fixpoint text_next_key (root : bool) (rs : list rres) : kres :=
+(* one key loop, parametrised by whether the result of the reader operation that follows an Open
+   in key position is propagated ([?]) or discarded ([let _ =]); the two flags are regenerated
+   from the sources (Tables.text_key_loop_propagates / bin_key_loop_propagates). *)
+Fixpoint next_key (propagate : bool) (root : bool) (rs : list rres) : kres :=
   match rs with
   | [] => KErrEof
   | RTok TClose :: _ => KEnd
   | RTok TOpen :: r =>
-    match r with                                  (* skip_container()? *)
-    | RTok _ :: r' => text_next_key root r'
-    | REof :: _ => KErrEof
-    | RIo :: _ => KErrIo
+    match r with
+    | RTok _ :: r' => next_key propagate root r'
+    | REof :: r' => if propagate then KErrEof else next_key propagate root r'
+    | RIo :: r' => if propagate then KErrIo else next_key propagate root r'
     | [] => KErrEof
     end
   | RTok t :: _ => KKey t
@@ -29,16 +32,5 @@ Fixpoint text_next_key (root : bool) (rs : list rres) : kres :=
   | RIo :: _ => KErrIo
   end.
 
-Fixpoint bin_next_key (root : bool) (rs : list rres) : kres :=
-  match rs with
-  | [] => KErrEof
-  | RTok TClose :: _ => KEnd
-  | RTok TOpen :: r =>
-    match r with                                  (* let _ = reader.read(); *)
-    | _ :: r' => bin_next_key root r'
-    | [] => KErrEof
-    end
-  | RTok t :: _ => KKey t
-  | REof :: _ => if root then KEnd else KErrEof
-  | RIo :: _ => KErrIo
-  end.
+Definition text_next_key := next_key text_key_loop_propagates.
+Definition bin_next_key := next_key bin_key_loop_propagates.
